@@ -46,4 +46,39 @@ theorem shannonSum_flatten {K : Nat} (S : Fin K → Nat) (g : (k : Fin K) → Fi
   simp only [Function.comp, List.map_map, Fin.sum_univ_def]
   rfl
 
+/-! ### long-lived objects with refused calls -/
+
+theorem afterCalls_append {ι : Type} (i0 : ι) (h1 h2 : List (ι → Except PyErr ι)) :
+    afterCalls i0 (h1 ++ h2) = afterCalls (afterCalls i0 h1) h2 := by
+  simp only [afterCalls, List.foldl_append]
+
+theorem reportsAlong_length {ι β : Type} (report : ι → β) :
+    ∀ (i : ι) (h : List (ι → Except PyErr ι)), (reportsAlong report i h).length = h.length + 1
+  | _, [] => rfl
+  | i, c :: cs => by simp [reportsAlong, reportsAlong_length report (stepOrKeep i c) cs]
+
+theorem reportsAlong_take {ι β : Type} (report : ι → β) :
+    ∀ (i : ι) (h1 h2 : List (ι → Except PyErr ι)),
+      (reportsAlong report i (h1 ++ h2)).take (h1.length + 1) = reportsAlong report i h1
+  | i, [], [] => by simp [reportsAlong]
+  | i, [], c :: cs => by simp [reportsAlong]
+  | i, c :: cs, h2 => by
+    simp only [List.cons_append, reportsAlong, List.length_cons, List.take_succ_cons]
+    rw [reportsAlong_take report (stepOrKeep i c) cs h2]
+
+theorem reportsAlong_getLast {ι β : Type} (report : ι → β) :
+    ∀ (i : ι) (h : List (ι → Except PyErr ι)),
+      (reportsAlong report i h).getLast? = some (report (afterCalls i h))
+  | i, [] => by simp [reportsAlong, afterCalls]
+  | i, c :: cs => by
+    have ih := reportsAlong_getLast report (stepOrKeep i c) cs
+    have hne : reportsAlong report (stepOrKeep i c) cs ≠ [] := by
+      intro h0
+      have := reportsAlong_length report (stepOrKeep i c) cs
+      rw [h0] at this
+      simp at this
+    simp only [reportsAlong, afterCalls, List.foldl_cons]
+    rw [List.getLast?_cons_of_ne_nil hne] at *
+    exact ih
+
 end PyPhysim.Sinr.Pf
